@@ -438,6 +438,8 @@ fn raw_script_in(t: &mut Tape, fmt: Fmt, timeline: bool, th06_std: bool, no_mask
         let mut pseudo = vec![];
         let mut mask = None; let mut arg0 = None;
         if matches!(fmt, Fmt::Anm | Fmt::Ecl) && !timeline && !no_mask && t.chance(1, 3) { let m = *t.pick(&[0i64, 1, 255, 256, 65535, 65536]); mask = Some(m); pseudo.push(format!("@mask={}", m)); }
+        // formats whose instruction header has no mask field (MSG, STD, timelines; also TH06 ANM, reached by the line above): a requested non-zero mask cannot be stored
+        else if (matches!(fmt, Fmt::Msg | Fmt::End | Fmt::Std) || timeline) && t.chance(1, 8) { let m = *t.pick(&[1i64, 0, 255, 65536]); mask = Some(m); pseudo.push(format!("@mask={}", m)); }
         if timeline && t.chance(1, 2) { let a = *t.pick(&[0i64, 1, 4, -1, 32767, 32768, 65535, -32768, -32769, 65536]); arg0 = Some(a); pseudo.push(format!("@arg0={}", a)); }
         pseudo.push(format!("@blob=\"{}\"", hex));
         out.push_str(&format!("    ins_{}({});\n", opcode, pseudo.join(", ")));
